@@ -1,8 +1,8 @@
 //@target src/reader.rs
 //@props C01,C02,C03,C04,C12,C13,C16,C19
 //@needs L2_row,L3_table,C16_counters,L1_crc,C03_icao
-//@extract kind=block_after file=src/reader.rs anchor=for~line~in~reader.lines().map_while(Result::ok) sig=fn~__verif_line_step(line:~String,~args:~&Args,~planes:~&mut~Planes,~mut~app_state:~&mut~AppCounters,~downlink_error_log_file:~Option<Mutex<File>>,~display_flags:~&DisplayFlags,~headers:~&LegendHeaders)~->~Result<()> subst=continue;=>return~Ok(()); post=Ok(())
-//@assume line step = the body of read_lines' `for line in reader.lines().map_while(Result::ok) { .. }` copied verbatim into a function whose parameters are the locals it mentions, with `continue;` -> `return Ok(());`. DROPPED and not verified: the iterator expression itself (BufRead::lines, UTF-8 validation, map_while), the four prologue statements of read_lines (log file creation, legend, headers, counters) and the final Ok(()).
+//@extract kind=block_after file=src/reader.rs anchor=for~line~in~reader.split(b'\n').map_while(Result::ok) sig=fn~__verif_line_step(line:~Vec<u8>,~args:~&Args,~planes:~&mut~Planes,~mut~app_state:~&mut~AppCounters,~downlink_error_log_file:~Option<Mutex<File>>,~display_flags:~&DisplayFlags,~headers:~&LegendHeaders)~->~Result<()> subst=continue;=>return~Ok(()); post=Ok(())
+//@assume line step = the body of read_lines' `for line in reader.split(b'\n').map_while(Result::ok) { .. }` copied verbatim into a function whose parameters are the locals it mentions, with `continue;` -> `return Ok(());`. DROPPED and not verified: the iterator expression itself (BufRead::split, map_while), the four prologue statements of read_lines (log file creation, legend, headers, counters) and the final Ok(()).
 //@assume in L4.line.* get_message is replaced by a stand-in returning None or an arbitrary frame satisfying its proved postcondition (valid digits, DF/length agreement; C02.get_message.*), and update_count / update_aircraft / cleanup / DF::from_message / display_planes by ghost recorders (own obligations: C16.update_count.*, L3.table.*, L2.record.*)
 
 #[cfg(kani)]
@@ -144,7 +144,7 @@ mod verif_l4_line {
         let mut st = counters();
         let flags = DisplayFlags { bits: kani::any() };
         let headers = LegendHeaders { header: String::new(), separator: String::new() };
-        let r = __verif_line_step(String::from("junk"), &args, &mut t, &mut st, None, &flags, &headers);
+        let r = __verif_line_step(b"junk\xff\x00".to_vec(), &args, &mut t, &mut st, None, &flags, &headers);
         assert!(r.is_ok(), "a rejected line does not end processing");
         unsafe {
             assert!(SEQ == 0 && R_COUNT.0 == 0 && R_UA.0 == 0 && R_CL.0 == 0 && R_DISP == 0, "a line that is not a frame causes no counter, table, sweep or display operation");
@@ -160,7 +160,7 @@ mod verif_l4_line {
         let mut st = counters();
         let flags = DisplayFlags { bits: kani::any() };
         let headers = LegendHeaders { header: String::new(), separator: String::new() };
-        let r = __verif_line_step(String::from("frame"), &args, &mut t, &mut st, None, &flags, &headers);
+        let r = __verif_line_step(b"frame".to_vec(), &args, &mut t, &mut st, None, &flags, &headers);
         assert!(r.is_ok(), "an accepted line does not end processing");
         unsafe {
             let df = G_MSG_DF;
